@@ -10,7 +10,7 @@ def squawk_of(id13):
 class C06:
     id = "C06"
     corr_fields = ['squawk']
-    lean_modules = ["SqModel.Props.C06", "SqModel.Proofs.BridgeBits", "SqModel.Proofs.Bridge"]
+    lean_modules = ["SqModel.Props.C06", "SqModel.Proofs.BridgeBits", "SqModel.Proofs.Bridge", "SqModel.Proofs.BridgePlane"]
     extractors = ["ma_code", "trans"]
     rule = ("all 8192 ID13 fields x {DF5, DF21} x {-U,-R on/off} embedded in random payloads, applied to an "
             "existing row and as creating frame; rows with a squawk hit by every other format. A case is "
